@@ -254,6 +254,18 @@ theorem c05_store_changes_only_by (s s' : Stack) (e : Event) (h : s.step e = som
     | none => rw [hf] at h; cases h
     | some l => rw [hf] at h; simp at h; subst h; exact Or.inl rfl
 
+/-- IDENTITY OF A FOUND SERVICE: the options an offer carries (endpoints, configuration, their index bookkeeping) play no
+part in what `handle_offer` does - the same service offered, refreshed or withdrawn with other options is the same
+service (in the code: `compare=False` on the option fields of `config.Service`; a flipped flag there is the seeded change
+s01, which the scenarios with varying options report) -/
+theorem c05_offer_options_irrelevant (s : Stack) (e : SDEntry) (a : Addr) (o1 o2 : List SDOption) (i : Option OptIdx) :
+    s.handleOffer { e with opts1 := o1, opts2 := o2, idx := i } a = s.handleOffer e a := by
+  have hw : s.isWatching { e with opts1 := o1, opts2 := o2, idx := i } = s.isWatching e := by
+    unfold isWatching Service.matchesOffer
+    rfl
+  unfold handleOffer
+  rw [hw]
+
 /-- non-vacuity: the premises of `c05_registered_listener_told_on_offer` are met by the state after listener 3
 registered for service 7 and an offer of 7.1 -/
 example :
